@@ -340,6 +340,19 @@ Proof. destruct s as [| |[[[a t] r]|]|[[[a l] t]|]]; reflexivity. Qed.
 Lemma is_cs_abs s : is_vs (abs_slot s) = is_cs s.
 Proof. destruct s as [| |[[[a t] r]|]|[[[a l] t]|]]; reflexivity. Qed.
 
+Lemma csame_abs {X Y} (ab : X -> Y) (Q : X -> Prop) st h (rd : crow -> option X) usrc udst (rd' : vrow -> option Y) usrc' udst' :
+  (forall r, rd' (abs_row r) = option_map ab (rd r)) ->
+  (forall r s, rd r = Some s -> Q s) ->
+  (forall r, option_map abs_row (usrc r) = usrc' (abs_row r)) ->
+  (forall s r, Q s -> option_map abs_row (udst s r) = udst' (ab s) (abs_row r)) ->
+  asame (abs_state st) h rd' usrc' udst' = (abs_state (fst (csame st h rd usrc udst)), snd (csame st h rd usrc udst)).
+Proof.
+  intros Hr HQ Hs Hd. unfold asame, csame. rewrite row_of_abs. destruct (row_of st h) as [r|]; simpl; auto.
+  rewrite Hr. destruct (rd r) as [s|] eqn:E; simpl; auto. specialize (HQ r s E).
+  rewrite <- Hs. destruct (usrc r) as [r1|]; simpl; auto.
+  rewrite <- (Hd s r1 HQ). destruct (udst s r1) as [r2|]; simpl; auto. now rewrite abs_set_row.
+Qed.
+
 Lemma cstep_refines sc st o :
   astep sc (abs_state st) o = (abs_state (fst (cstep sc st o)), snd (cstep sc st o)).
 Proof.
@@ -367,7 +380,11 @@ Proof.
     + intros x. simpl. f_equal. unfold ccopy_row, abs_row. apply map3d_exact.
       apply Forall_forall. intros y _ t d. apply ccopy_exact.
   - (* OMoveSlot *)
-    rewrite !ro_abs. destruct (ro st h1 || ro st h2); auto. destruct (Nat.eqb h1 h2); auto.
+    rewrite !ro_abs. destruct (ro st h1 || ro st h2); auto. destruct (Nat.eqb h1 h2).
+    { destruct (sdiverge p1 j1 p2 j2); auto. apply (csame_abs abs_slot (fun _ => True)); auto.
+      - intros r. rewrite cget_abs. destruct (cget r p1) as [q|]; simpl; auto. unfold abs_row. apply nth_error_map'.
+      - intros r. apply cupd_abs. intros x. unfold abs_row. apply on_slot_abs. apply abs_cmoved.
+      - intros s r _. apply cupd_abs. intros x. unfold abs_row. apply on_slot_abs. auto. }
     rewrite read_slot_abs. destruct (opt_bind (row_of st h1) (fun r => opt_bind (cget r p1) _)) as [s|]; simpl; auto.
     rewrite (upd_abs st h2 p2 (on_slot j2 (fun _ => s)) (on_slot j2 (fun _ => abs_slot s)))
       by (intros x; unfold abs_row; apply on_slot_abs; auto).
@@ -376,7 +393,11 @@ Proof.
     destruct (opt_bind (row_of st h2) _); simpl; auto.
     destruct (opt_bind (row_of st h1) _); simpl; auto. now rewrite !abs_set_row.
   - (* OMoveRow *)
-    rewrite !ro_abs. destruct (ro st h1 || ro st h2); auto. destruct (Nat.eqb h1 h2); auto.
+    rewrite !ro_abs. destruct (ro st h1 || ro st h2); auto. destruct (Nat.eqb h1 h2).
+    { destruct (diverge p1 p2); auto. apply (csame_abs abs_row (fun _ => True)); auto.
+      - intros r. apply cget_abs.
+      - intros r. apply cupd_abs. intros x. simpl. f_equal. apply abs_zero_row.
+      - intros s r _. apply cupd_abs. intros x. reflexivity. }
     rewrite read_row_abs. destruct (opt_bind (row_of st h1) (fun r => cget r p1)) as [s|]; simpl; auto.
     rewrite (upd_abs st h2 p2 (fun _ => Some s) (fun _ => Some (abs_row s))) by reflexivity.
     rewrite (upd_abs st h1 p1 (fun _ => Some (czero_row sc n)) (fun _ => Some (vzero_row sc n))).
@@ -384,7 +405,18 @@ Proof.
       destruct (opt_bind (row_of st h1) _); simpl; auto. now rewrite !abs_set_row.
     + intros x. simpl. f_equal. apply abs_zero_row.
   - (* OMoveAppend *)
-    rewrite !ro_abs. destruct (ro st h1 || ro st h2); auto. destruct (Nat.eqb h1 h2); auto.
+    rewrite !ro_abs. destruct (ro st h1 || ro st h2); auto. destruct (Nat.eqb h1 h2).
+    { destruct (sdiverge p1 j1 p2 j2); auto.
+      apply (csame_abs abs_slot (fun s => is_cs s = true)).
+      - intros r. rewrite cget_abs. destruct (cget r p1) as [q|]; simpl; auto. unfold abs_row. rewrite nth_error_map'.
+        destruct (nth_error q j1) as [s|]; simpl; auto. rewrite is_cs_abs. destruct (is_cs s); reflexivity.
+      - intros r s H. destruct (opt_bind (cget r p1) _) as [s0|]; simpl in H; try discriminate.
+        destruct (is_cs s0) eqn:E; inversion H; subst; auto.
+      - intros r. apply cupd_abs. intros x. unfold abs_row. apply on_slot_abs. auto.
+      - intros s r Hs. apply cupd_abs. intros x. unfold abs_row. apply on_slot_abs. intros d. apply on_cs_abs. clear d. intros d Hd.
+        rewrite (vs_rows_abs s Hs). destruct (cs_nil d) eqn:Hn.
+        + destruct d as [| | |[[[a l] t]|]]; try discriminate. simpl. now apply abs_cs.
+        + now apply abs_capp. }
     rewrite read_slot_abs. destruct (opt_bind (row_of st h1) (fun r => opt_bind (cget r p1) _)) as [s|]; simpl; auto.
     rewrite is_cs_abs. destruct (is_cs s) eqn:Hs; simpl; auto.
     rewrite (upd_abs st h2 p2 (on_slot j2 (on_cs (fun d => if cs_nil d then s else capp d (cs_live s) newcap)))
@@ -444,6 +476,12 @@ Proof.
   destruct (Nat.eqb h' h) eqn:Eq; auto. apply Nat.eqb_eq in Eq. subst. now rewrite E.
 Qed.
 
+Lemma ro_csame {X} st h h' (rd : crow -> option X) us ud : ro (fst (csame st h' rd us ud)) h = ro st h.
+Proof.
+  unfold csame. destruct (row_of st h') as [r|]; simpl; auto. destruct (rd r) as [s|]; simpl; auto.
+  destruct (opt_bind (us r) (ud s)); simpl; auto. apply ro_set_row.
+Qed.
+
 Lemma readonly_sticky sc st o h : ro st h = true -> ro (fst (cstep sc st o)) h = true.
 Proof.
   intros Hro. destruct o; simpl.
@@ -455,13 +493,16 @@ Proof.
     now rewrite ro_set_row.
   - destruct (ro st h2); auto. destruct (opt_bind _ _); simpl; auto. destruct (opt_bind _ _); simpl; auto.
     now rewrite ro_set_row.
-  - destruct (ro st h1 || ro st h2); auto. destruct (Nat.eqb h1 h2); auto.
+  - destruct (ro st h1 || ro st h2); auto. destruct (Nat.eqb h1 h2).
+    { match goal with |- context [if ?c then _ else _] => destruct c end; auto. now rewrite ro_csame. }
     destruct (opt_bind _ _); simpl; auto. destruct (opt_bind _ _); simpl; auto. destruct (opt_bind _ _); simpl; auto.
     now rewrite !ro_set_row.
-  - destruct (ro st h1 || ro st h2); auto. destruct (Nat.eqb h1 h2); auto.
+  - destruct (ro st h1 || ro st h2); auto. destruct (Nat.eqb h1 h2).
+    { match goal with |- context [if ?c then _ else _] => destruct c end; auto. now rewrite ro_csame. }
     destruct (opt_bind _ _); simpl; auto. destruct (opt_bind _ _); simpl; auto. destruct (opt_bind _ _); simpl; auto.
     now rewrite !ro_set_row.
-  - destruct (ro st h1 || ro st h2); auto. destruct (Nat.eqb h1 h2); auto.
+  - destruct (ro st h1 || ro st h2); auto. destruct (Nat.eqb h1 h2).
+    { match goal with |- context [if ?c then _ else _] => destruct c end; auto. now rewrite ro_csame. }
     destruct (opt_bind _ _); simpl; auto. destruct (is_cs c); simpl; auto.
     destruct (opt_bind _ _); simpl; auto. destruct (opt_bind _ _); simpl; auto.
     now rewrite !ro_set_row.
@@ -477,6 +518,13 @@ Proof.
   destruct (Nat.eqb h' h) eqn:Eq; auto. apply Nat.eqb_eq in Eq. congruence.
 Qed.
 
+Lemma row_of_csame_other {X} st h h' (rd : crow -> option X) us ud : h <> h' ->
+  row_of (fst (csame st h' rd us ud)) h = row_of st h.
+Proof.
+  intros Hne. unfold csame. destruct (row_of st h') as [r|]; simpl; auto. destruct (rd r) as [s|]; simpl; auto.
+  destruct (opt_bind (us r) (ud s)); simpl; auto. now apply row_of_set_row.
+Qed.
+
 Lemma frame_step sc st o h : nth_error (s_hs st) h <> None -> ~ writes o h ->
   row_of (fst (cstep sc st o)) h = row_of st h.
 Proof.
@@ -488,13 +536,19 @@ Proof.
     apply row_of_set_row. congruence.
   - destruct (ro st h2); auto. destruct (opt_bind _ _); simpl; auto. destruct (opt_bind _ _); simpl; auto.
     apply row_of_set_row. congruence.
-  - destruct (ro st h1 || ro st h2); auto. destruct (Nat.eqb h1 h2); auto.
+  - destruct (ro st h1 || ro st h2); auto. destruct (Nat.eqb h1 h2) eqn:Eh.
+    { apply Nat.eqb_eq in Eh. subst h2. match goal with |- context [if ?c then _ else _] => destruct c end; auto.
+      apply row_of_csame_other. intros ->; tauto. }
     destruct (opt_bind _ _); simpl; auto. destruct (opt_bind _ _); simpl; auto. destruct (opt_bind _ _); simpl; auto.
     rewrite !row_of_set_row; auto; intros ->; tauto.
-  - destruct (ro st h1 || ro st h2); auto. destruct (Nat.eqb h1 h2); auto.
+  - destruct (ro st h1 || ro st h2); auto. destruct (Nat.eqb h1 h2) eqn:Eh.
+    { apply Nat.eqb_eq in Eh. subst h2. match goal with |- context [if ?c then _ else _] => destruct c end; auto.
+      apply row_of_csame_other. intros ->; tauto. }
     destruct (opt_bind _ _); simpl; auto. destruct (opt_bind _ _); simpl; auto. destruct (opt_bind _ _); simpl; auto.
     rewrite !row_of_set_row; auto; intros ->; tauto.
-  - destruct (ro st h1 || ro st h2); auto. destruct (Nat.eqb h1 h2); auto.
+  - destruct (ro st h1 || ro st h2); auto. destruct (Nat.eqb h1 h2) eqn:Eh.
+    { apply Nat.eqb_eq in Eh. subst h2. match goal with |- context [if ?c then _ else _] => destruct c end; auto.
+      apply row_of_csame_other. intros ->; tauto. }
     destruct (opt_bind _ _); simpl; auto. destruct (is_cs c); simpl; auto.
     destruct (opt_bind _ _); simpl; auto. destruct (opt_bind _ _); simpl; auto.
     rewrite !row_of_set_row; auto; intros ->; tauto.
@@ -595,12 +649,12 @@ Qed.
 
 (* MoveTo of a slice / map / value: the destination reads the old source, the source reads empty *)
 Lemma a_move_slot sc st h1 p1 j1 h2 p2 j2 st' :
-  astep sc st (OMoveSlot h1 p1 j1 h2 p2 j2) = (st', 0) ->
+  h1 <> h2 -> astep sc st (OMoveSlot h1 p1 j1 h2 p2 j2) = (st', 0) ->
   exists s, aread_slot st h1 p1 j1 = Some s /\ aread_slot st' h2 p2 j2 = Some s /\
             aread_slot st' h1 p1 j1 = Some (vmoved s).
 Proof.
-  unfold astep, aread_slot. destruct (aro st h1 || aro st h2); try discriminate.
-  destruct (Nat.eqb h1 h2) eqn:Eh; try discriminate. apply Nat.eqb_neq in Eh.
+  intros Hne. unfold astep, aread_slot. destruct (aro st h1 || aro st h2); try discriminate.
+  destruct (Nat.eqb h1 h2) eqn:Eh; [apply Nat.eqb_eq in Eh; contradiction|]. apply Nat.eqb_neq in Eh.
   destruct (opt_bind (arow_of st h1) (fun r => opt_bind (aget r p1) _)) as [s|] eqn:Es; try discriminate.
   destruct (arow_of st h2) as [r2|] eqn:E2; simpl; try discriminate.
   destruct (aupd r2 p2 _) as [r2'|] eqn:Eu2; try discriminate.
@@ -617,12 +671,12 @@ Qed.
 
 (* MoveTo of a struct: the destination reads the old source, every field of the source reads empty *)
 Lemma a_move_row sc st n h1 p1 h2 p2 st' :
-  astep sc st (OMoveRow n h1 p1 h2 p2) = (st', 0) ->
+  h1 <> h2 -> astep sc st (OMoveRow n h1 p1 h2 p2) = (st', 0) ->
   exists s, aread_row st h1 p1 = Some s /\ aread_row st' h2 p2 = Some s /\
             aread_row st' h1 p1 = Some (vzero_row sc n).
 Proof.
-  unfold astep, aread_row. destruct (aro st h1 || aro st h2); try discriminate.
-  destruct (Nat.eqb h1 h2) eqn:Eh; try discriminate. apply Nat.eqb_neq in Eh.
+  intros Hne. unfold astep, aread_row. destruct (aro st h1 || aro st h2); try discriminate.
+  destruct (Nat.eqb h1 h2) eqn:Eh; [apply Nat.eqb_eq in Eh; contradiction|]. apply Nat.eqb_neq in Eh.
   destruct (opt_bind (arow_of st h1) (fun r => aget r p1)) as [s|] eqn:Es; try discriminate.
   destruct (arow_of st h2) as [r2|] eqn:E2; simpl; try discriminate.
   destruct (aupd r2 p2 _) as [r2'|] eqn:Eu2; try discriminate.
@@ -639,13 +693,13 @@ Qed.
 
 (* MoveAndAppendTo: destination = old destination ++ old source in order, source empty *)
 Lemma a_move_append sc st c h1 p1 j1 h2 p2 j2 st' :
-  astep sc st (OMoveAppend c h1 p1 j1 h2 p2 j2) = (st', 0) ->
+  h1 <> h2 -> astep sc st (OMoveAppend c h1 p1 j1 h2 p2 j2) = (st', 0) ->
   exists s d, aread_slot st h1 p1 j1 = Some s /\ aread_slot st h2 p2 j2 = Some d /\
               aread_slot st' h2 p2 j2 = Some (on_vs (fun d => VS (vs_rows d ++ vs_rows s)) d) /\
               aread_slot st' h1 p1 j1 = Some (VS []).
 Proof.
-  unfold astep, aread_slot. destruct (aro st h1 || aro st h2); try discriminate.
-  destruct (Nat.eqb h1 h2) eqn:Eh; try discriminate. apply Nat.eqb_neq in Eh.
+  intros Hne. unfold astep, aread_slot. destruct (aro st h1 || aro st h2); try discriminate.
+  destruct (Nat.eqb h1 h2) eqn:Eh; [apply Nat.eqb_eq in Eh; contradiction|]. apply Nat.eqb_neq in Eh.
   destruct (opt_bind (arow_of st h1) (fun r => opt_bind (aget r p1) _)) as [s|] eqn:Es; try discriminate.
   destruct (is_vs s); simpl; try discriminate.
   destruct (arow_of st h2) as [r2|] eqn:E2; simpl; try discriminate.
